@@ -27,6 +27,22 @@ func aeHeader(ae string) http.Header {
 		h.Set("Accept-Encoding", "gzip;q=0")
 	case "mixedq":
 		h.Set("Accept-Encoding", "br;q=1.0, gzip;q=0")
+	case "gzipq00":
+		h.Set("Accept-Encoding", "gzip;q=0.0")
+	case "q000deflate":
+		h.Set("Accept-Encoding", "gzip;q=0.000, deflate")
+	case "gzipq0dot":
+		h.Set("Accept-Encoding", "gzip;q=0.")
+	case "gzipq0001":
+		h.Set("Accept-Encoding", "gzip;q=0.001")
+	case "ows":
+		h.Set("Accept-Encoding", "gzip ; q=0")
+	case "upper":
+		h.Set("Accept-Encoding", "GZIP")
+	case "starq0":
+		h.Set("Accept-Encoding", "*;q=0, br;q=0.00")
+	case "qempty":
+		h.Set("Accept-Encoding", "gzip;q=")
 	}
 	return h
 }
@@ -52,7 +68,8 @@ func hrRespCell(t *testing.T, rec *Rec, g *Gates, scn string, cell map[string]an
 	b64, jsonp := cell["b64"].(bool), cell["jsonp"].(bool)
 	ae, th, flag := cell["ae"].(string), cell["threshold"].(string), cell["flag"].(string)
 	size, kind := int(cell["size"].(float64)), cell["kind"].(string)
-	j := map[string]string{"seven": "7", "12ab": "12ab", "script": "</script>9", "empty": "", "inject": "1);alert(1"}[cell["j"].(string)]
+	j := map[string]string{"seven": "7", "12ab": "12ab", "script": "</script>9", "empty": "", "inject": "1);alert(1", "neg1": "-1", "plus7": "+7",
+		"zeros": "007", "float": "1.5", "hex": "0x10", "huge": "9999999999999999999999"}[cell["j"].(string)]
 	so := &config.ServerOptions{}
 	so.SetAllowEIO3(true)
 	if th == "zero" {
@@ -292,7 +309,14 @@ func hrCorsCell(t *testing.T, rec *Rec, g *Gates, scn string, cell map[string]an
 		method = "OPTIONS"
 		hdr.Set("Access-Control-Request-Method", "POST")
 	}
-	r := w.StartReq("other", nil, ReqOpt{Method: method, Query: "EIO=4&transport=polling", Hdr: hdr})
+	// a Vary header an enclosing handler of the application has already put on the response
+	outer, _ := cell["outer"].(string)
+	outerVary := map[string]string{"ae": "Accept-Encoding", "xorig": "X-Original-Host", "lower": "origin"}[outer]
+	var respHdr http.Header
+	if outerVary != "" {
+		respHdr = http.Header{"Vary": []string{outerVary}}
+	}
+	r := w.StartReq("other", nil, ReqOpt{Method: method, Query: "EIO=4&transport=polling", Hdr: hdr, RespHdr: respHdr})
 	synctest.Wait()
 	if st, _ := cell["step"].(string); st == "bigpoll" && r.Status == 200 {
 		// a later poll of the same session, large enough to be compressed
@@ -309,7 +333,7 @@ func hrCorsCell(t *testing.T, rec *Rec, g *Gates, scn string, cell map[string]an
 			synctest.Wait()
 		}
 	}
-	obs := map[string]any{"status": r.Status, "created": created > 0, "acao": "", "acaoIsRequestOrigin": false, "varyOrigin": false, "acac": ""}
+	obs := map[string]any{"status": r.Status, "created": created > 0, "acao": "", "acaoIsRequestOrigin": false, "varyOrigin": false, "acac": "", "outerKept": outerVary == ""}
 	if r.Hdr != nil {
 		acao := r.Hdr.Get("Access-Control-Allow-Origin")
 		obs["acao"] = acao
@@ -318,6 +342,9 @@ func hrCorsCell(t *testing.T, rec *Rec, g *Gates, scn string, cell map[string]an
 		for _, v := range strings.Split(r.Hdr.Get("Vary"), ",") {
 			if strings.EqualFold(strings.TrimSpace(v), "Origin") {
 				obs["varyOrigin"] = true
+			}
+			if outerVary != "" && strings.EqualFold(strings.TrimSpace(v), outerVary) {
+				obs["outerKept"] = true
 			}
 		}
 	}
